@@ -209,6 +209,13 @@ static void signal_def_defaults(struct jls_signal_def_s * def) {
 }
 
 int32_t jls_core_signal_def_align(struct jls_signal_def_s * def) {
+    // The rounding below works in 32 bits: reject sizes it cannot represent.
+    const uint32_t param_max = 1U << 30;
+    if ((def->samples_per_data > param_max) || (def->sample_decimate_factor > param_max)
+            || (def->entries_per_summary > param_max) || (def->summary_decimate_factor > param_max)) {
+        JLS_LOGW("signal definition parameter too large");
+        return JLS_ERROR_PARAMETER_INVALID;
+    }
     signal_def_defaults(def);
     uint8_t sample_size = jls_datatype_parse_size(def->data_type);
     uint32_t samples_per_data_multiple = (SAMPLE_SIZE_BYTES_MAX * 8) / sample_size;
